@@ -99,13 +99,25 @@ fn fen_position(input: &str) -> IResult<&str, Board> {
 
             assert_eq!(all_pieces.len(), Square::N);
 
-            let pieces_array: [Option<Piece>; Square::N] = all_pieces.try_into().unwrap();
-
-            pieces_array.try_into().unwrap()
+            all_pieces
         },
     )(input)?;
 
-    Ok((input, board))
+    // No side ever has more than sixteen men. Boards with more are not positions, and their material
+    // does not fit the evaluation's accumulators.
+    for player in [Player::White, Player::Black] {
+        let men = board.iter().flatten().filter(|p| p.player == player).count();
+        if men > 16 {
+            return Err(nom::Err::Error(nom::error::Error::new(
+                input,
+                nom::error::ErrorKind::Verify,
+            )));
+        }
+    }
+
+    let pieces_array: [Option<Piece>; Square::N] = board.try_into().unwrap();
+
+    Ok((input, pieces_array.try_into().unwrap()))
 }
 
 fn fen_color(input: &str) -> IResult<&str, Player> {
